@@ -31,7 +31,12 @@ CID_ASSUME = [
 ]
 
 NODE_SCOPE = ("src/server.rs (ServerBehaviour), src/client.rs (ClientBehaviour), src/wantlist.rs, src/lib.rs glue "
-              "(Model/Server, Model/Client, Model/Wantlist, Model/Node); connection handlers, libp2p-swarm, yamux are not in this model")
+              "(Model/Server, Model/Client, Model/Wantlist, Model/Node); libp2p-swarm, yamux are not in this model")
+
+HANDLER_SCOPE = ("src/lib.rs ConnHandler, src/client.rs ClientConnectionHandler, src/server.rs ServerConnectionHandler, "
+                 "src/incoming_stream.rs IncomingStream::poll_next (Model/ConnHandler = Model/ClientHandler + Model/ServerSink + Model/Inbound); "
+                 "tied to the code by deterministic replay of handler traces recorded from real swarms (probe hook: every answer of the sinks, "
+                 "the framed readers, the processing futures and the timer), `bsdriver cvalidate`")
 
 NODE_ASSUME = [
     "FuturesUnordered yields each completed future once, in wake order; Abortable never yields Ok after abort()",
@@ -72,12 +77,14 @@ PROPS = {
     ),
     "C09": dict(
         lean_modules=["Beetswap.Props.C09"],
-        model_scope=CODEC_SCOPE,
+        model_scope=CODEC_SCOPE + "; " + HANDLER_SCOPE,
         assumptions=CODEC_ASSUME,
+        validate_conn_traces=True,
         streams=[
             S("limit", ["--cases", 400], ["--cases", 30000]),
             S("chunks", ["--cases", 150, "--cutlen", 120], ["--cases", 5000, "--cutlen", 300], oracle=False),
             S("pack", ["--cases", 25], ["--cases", 1500]),
+            S("simraw", ["--cases", 100], ["--cases", 5000]),
         ],
     ),
     "C01": dict(
@@ -130,9 +137,10 @@ PROPS = {
     "C05": dict(
         lean_modules=["Beetswap.Props.C05"],
         validate_handler_traces=True,
-        model_scope=NODE_SCOPE + "; the connection handler (ClientConnectionHandler) is exercised in the simulator, not modelled in a theorem",
+        model_scope=NODE_SCOPE + "; the connection handler (ClientConnectionHandler) is exercised in the simulator, not modelled in a theorem" + "; " + HANDLER_SCOPE,
         assumptions=NODE_ASSUME + ["acknowledgements from connection handlers are not late (a handler that is alive reports RequestReceived within 1 s): violations under late acknowledgements are the known findings F13 / F14",
                                    "Tier 2 simulator: libp2p-swarm / yamux / multistream-select over the memory transport under a harness-owned executor and virtual clock"],
+        validate_conn_traces=True,
         streams=[
             S("node", ["--cases", 100], ["--cases", 5000, "--ops", 150]),
             S("simfault", ["--cases", 150], ["--cases", 8000, "--nodes", 4, "--actions", 50]),
@@ -141,11 +149,12 @@ PROPS = {
     ),
     "C14": dict(
         lean_modules=["Beetswap.Props.C14"],
-        model_scope="src/client.rs::ClientConnectionHandler (Model/ClientHandler, validated against handler traces recorded from real swarms); " + NODE_SCOPE,
+        model_scope=HANDLER_SCOPE + "; " + NODE_SCOPE,
         assumptions=NODE_ASSUME + ["yamux delivers the bytes of a flushed frame in order on its stream (assumed)",
                                    "the behaviour hands a connection a new wantlist only after the handler reported the outcome of the previous one: holds unless acknowledgements are late (known finding F14)",
                                    "Tier 2 simulator: libp2p-swarm / yamux / multistream-select over the memory transport under a harness-owned executor and virtual clock"],
         validate_handler_traces=True,
+        validate_conn_traces=True,
         streams=[
             S("sim", ["--cases", 120], ["--cases", 8000, "--nodes", 4, "--actions", 50]),
             S("simfault", ["--cases", 150, "--conns", 3], ["--cases", 8000, "--conns", 3, "--nodes", 4, "--actions", 50]),
@@ -155,8 +164,9 @@ PROPS = {
     ),
     "C15": dict(
         lean_modules=["Beetswap.Props.C15"],
-        model_scope=NODE_SCOPE,
+        model_scope=NODE_SCOPE + "; " + HANDLER_SCOPE,
         assumptions=NODE_ASSUME + ["late acknowledgements excluded (known finding F14)", "Tier 2 simulator as in C05"],
+        validate_conn_traces=True,
         streams=[
             S("node", ["--cases", 100, "--peers", 2], ["--cases", 5000, "--peers", 2, "--ops", 150]),
             S("sim", ["--cases", 120, "--conns", 3], ["--cases", 6000, "--conns", 3, "--nodes", 4]),
@@ -173,12 +183,16 @@ PROPS = {
     ),
     "C06": dict(
         lean_modules=["Beetswap.Props.C06"],
-        model_scope=NODE_SCOPE,
+        model_scope=NODE_SCOPE + "; " + HANDLER_SCOPE,
         assumptions=NODE_ASSUME,
+        validate_conn_traces=True,
         streams=[
             S("node", ["--cases", 120], ["--cases", 6000, "--ops", 120]),
             S("nodebig", ["--cases", 12], ["--cases", 300]),
             S("sim", ["--cases", 100, "--conns", 2], ["--cases", 5000, "--conns", 3, "--nodes", 4]),
+            # a raw peer that reads slowly (blocks larger than a yamux window: back-pressure on the
+            # server half's sink) or drops the node's streams
+            S("simraw", ["--cases", 150], ["--cases", 10000]),
         ],
     ),
     "C07": dict(
@@ -201,8 +215,10 @@ PROPS = {
     ),
     "C16": dict(
         lean_modules=["Beetswap.Props.C16"],
-        model_scope=CID_SCOPE,
-        assumptions=CID_ASSUME + ["independence of the inbound streams of one connection (futures SelectAll) and of the behaviours from a stream's end is by construction of the handler, not modelled"],
+        model_scope=CID_SCOPE + "; " + HANDLER_SCOPE,
+        assumptions=CID_ASSUME + ["futures' SelectAll polls the woken substreams one after the other, drops a substream whose poll_next returns None and returns the first item (Model/Inbound.selectPoll; the order is read off the recorded probe lines)",
+                                  "the connection-handler model (Model/ConnHandler: client half, server half, inbound substreams) is tied to the code by deterministic replay of handler traces recorded from real swarms, with the answers of sinks, streams and timer recorded by the probe hook"],
+        validate_conn_traces=True,
         streams=[
             S("procmsg", ["--cases", 300], ["--cases", 30000]),
             # the glue of lib.rs: a message with a wantlist and blocks / presences has both halves applied
